@@ -12,7 +12,7 @@ from harness import gen
 
 THEOREMS = {
     'RsomeV.Props.C13': [
-        'RsomeV.C13.evtadapt_partition',
+        'RsomeV.C13.evtadapt_partition', 'RsomeV.C13.evtadapt_rejects_empty',
         'RsomeV.C13.run_events',
         'RsomeV.C13.evtadapt_rejects_redeclared',
         'RsomeV.C13.combSet_refines',
@@ -179,6 +179,46 @@ def run(ctx):
             ctx.hit('ldr-structure-not-as-declared', case['structure_problem'], {k: v for k, v in case.items() if k != 'structure_problem'})
         reqs.append(rq); codes.append(code); cases.append(case); comps.append('DecRule.adapt')
         ctx.count('ldr:' + ','.join(sorted(set(code['results']))) if code['results'] else 'ldr:none')
+    # ---- E. adapt() targets that are not random variables of the model ------------------------------------
+    def illegal_targets():
+        from rsome import ro, dro
+        out = []
+        m = ro.Model(); z = m.rvar(3); x = m.dvar(2); y = m.ldr()
+        out.append(('ro rule adapted to a decision variable', lambda: y.adapt(x[0])))
+        m2 = ro.Model(); y2 = m2.ldr(2); x2 = m2.dvar(3)
+        out.append(('ro rule slice adapted to a decision array', lambda: y2[0].adapt(x2)))
+        d = dro.Model(3); xd = d.dvar(); wd = d.dvar(2)
+        out.append(('dro decision adapted to an empty list of scenarios', lambda: xd.adapt([])))
+        out.append(('dro decision adapted to a decision variable', lambda: xd.adapt(wd)))
+        return out
+    # a refused declaration leaves the decision as it was (shape, static / adaptive flag), and what was legal before stays legal
+    def refused_adapt_state():
+        from rsome import dro
+        d = dro.Model(2); z = d.rvar(2); y = d.dvar(); b = d.dvar(2, vtype='B'); y.adapt(z)
+        for f_ in (lambda: y.adapt(z[0]), lambda: b.adapt(z)):
+            try:
+                f_()
+                return 'an illegal adapt() was accepted'
+            except Exception:
+                pass
+        if tuple(y.shape) != () or not b.fixed:
+            return 'after refused adapt() calls: y.shape = %r, b.fixed = %r' % (tuple(y.shape), b.fixed)
+        try:
+            _ = b * z
+        except Exception as ex:
+            return 'b * z refused after a refused b.adapt(z): ' + type(ex).__name__
+        return None
+    ctx.search_cases += 1; ctx.evaluations += 1
+    pb = refused_adapt_state()
+    if pb:
+        ctx.hit('rejected-declaration-changed-the-decision', {"what": pb}, {"illegal_target": "refused affine adapt"})
+    for name, f in illegal_targets():
+        ctx.search_cases += 1; ctx.evaluations += 1
+        try:
+            f()
+            ctx.hit('illegal-adaptation-target-accepted', {"what": name}, {"illegal_target": name})
+        except Exception as ex:
+            ctx.count('illegal-target:raised:' + type(ex).__name__)
     outs = C.lean_run(reqs)
     for rq, code, case, comp, out in zip(reqs, codes, cases, comps, outs):
         keys = [k for k in code.keys()]
